@@ -372,6 +372,13 @@ theorem canonI_not_inf (N : Int) (g : Int) : (canonI N g).isInf = false := by
       rw [beq_eq_false_iff_ne]; intro h; rw [h] at hm; exact hm rfl
     rw [h1, h2]; rfl
 
+theorem canonI_not_nan (N : Int) (g : Int) : (canonI N g).isNaN = false := by
+  by_cases hN : N = 0
+  · subst hN; rw [canonI_zero]; decide
+  · have hm := canonI_man_ne N g hN
+    unfold MpfT.isNaN
+    rw [beq_eq_false_iff_ne]; intro h; rw [h] at hm; exact hm rfl
+
 /-- mpf2expansion on a grid value, for any rounding step satisfying `RSpec` -/
 theorem expansion_spec (R : MpfT → Nat) (f : Fmt) (prec : Nat) (hew : 2 ≤ f.ew) (hp : 1 ≤ f.p)
     (hprec : f.p ≤ prec ∨ f = binary64) (hR : RSpec f R) (X : Int) (hX : X.natAbs ≤ gridMax f)
@@ -384,8 +391,8 @@ theorem expansion_spec (R : MpfT → Nat) (f : Fmt) (prec : Nat) (hew : 2 ≤ f.
     expansionLoop_spec R f prec hew hp hprec hR (tz X.natAbs) X.natAbs hX hbits X.natAbs X rfl hd (Nat.le_refl _) [] fuel hfuel
   refine ⟨ws, ?_, hne, hgood, hsum, ?_⟩
   · unfold mpf2expansionG
-    rw [canonI_not_inf]
-    simp only [Bool.false_eq_true, if_false, hloop, List.nil_append]
+    rw [canonI_not_inf, canonI_not_nan]
+    simp only [Bool.or_self, Bool.false_eq_true, if_false, hloop, List.nil_append]
   · rw [e2m_value f prec hew hp hprec ws hne hgood hfits, hsum]
 
 end FAVerif.Conv
